@@ -132,6 +132,19 @@ def run(rep):
             stay = [f_ for f_ in fin if cq.found_after(srch, f_[1]) is not False]
             okn = bool(adv) and all(cnt in f_[0] and cq.same_expr(f_[0][cnt], f"{cnt}+1") for f_ in adv) and \
                 all(cnt not in f_[0] or cq.same_expr(f_[0][cnt], cnt) for f_ in stay) and len(cq.steps_of(loop, cnt)) == 1
+        if okn:
+            # the last free slot is usable: appending is not refused while the counter is ncells - 1 (the wrapper sizes the outputs with the
+            # number of cells of the coarse grid, all of which a catchment can touch)
+            def refused_at_last_slot(e):
+                for nc_ in range(1, 6):
+                    for cnd, t in e.conds:
+                        v = cq.int_eval(cnd, {cnt: nc_ - 1, "ncells": nc_})
+                        if v is not None and bool(v) != t:
+                            return True
+                return False
+            full = [e for e in new if refused_at_last_slot(e)]
+            rep.check(not full, "R16.a", file, "c_intersect", "capacity test refuses a new cell only when all ncells slots are used",
+                      f"the store at line {full[0].line} is not reached when {cnt} == ncells - 1" if full else "", line=loop.get("_line"))
         others = [e for e in alls if e not in new and not any(e is f_ or (e.loops and e.line == f_.line and e.arr == f_.arr and e.op == f_.op) for f_ in found)]
         oksr = oksr and not others
     rep.check(oksr, "R16.a", file, "c_intersect", "a centre falling in a listed cell adds the area factor (csz_area/csz)^2 to that cell's weight, once", det, line=loop.get("_line"))
